@@ -562,7 +562,17 @@ pub fn alter(p: &Proof, other: Option<&Proof>, r: &mut Rng) -> Option<(Proof, &'
         7 => q.upgrade.as_mut().map(|u| { bump(&mut u.start, r); "upgrade-start" }),
         8 => q.upgrade.as_mut().map(|u| { bump(&mut u.length, r); "upgrade-length" }),
         9 => q.upgrade.as_mut().and_then(|u| alter_nodes(&mut u.nodes, r, 0)),
-        10 => q.upgrade.as_mut().and_then(|u| alter_nodes(&mut u.additional_nodes, r, 0)),
+        10 => q.upgrade.as_mut().and_then(|u| {
+            // half of the time: one more additional node exactly where the next root would be (the leaf of block
+            // start+length, or the parent over the next two blocks when that is aligned) — a structurally valid
+            // extension of the signed tree that the signature does not cover
+            if r.chance(1, 2) {
+                let l = u.start + u.length;
+                let last = u.additional_nodes.last().map(|n| n.index());
+                let idx = if l % 2 == 0 && r.chance(1, 2) { 2 * l + 1 } else { 2 * l };
+                if last.map(|x| x < idx).unwrap_or(true) { u.additional_nodes.push(Node::new(idx, r.bytes(32), r.below(1 << 20))); Some("additional-next-root") } else { alter_nodes(&mut u.additional_nodes, r, 0) }
+            } else { alter_nodes(&mut u.additional_nodes, r, 0) }
+        }),
         11 => q.upgrade.as_mut().map(|u| { if r.chance(1, 6) { u.signature.pop(); "signature-short" } else { flip(&mut u.signature, r); "signature-flip" } }),
         12 => { bump(&mut q.fork, r); Some("fork") }
         13 => match r.below(4) {
@@ -1036,10 +1046,14 @@ pub fn backend_sequences(seed: u64, n: usize) -> RunOut {
 
 fn replay_with_fault(prefix: &[String], op: &str, k: usize, plen: u64) -> (String, String, String) { replay_with_fault_on("W", prefix, op, k, plen) }
 
-fn replay_with_fault_on(name: &str, prefix: &[String], op: &str, k: usize, plen: u64) -> (String, String, String) {
+fn replay_with_fault_on(name: &str, prefix: &[String], op: &str, k: usize, plen: u64) -> (String, String, String) { replay_with_fault_sub(name, prefix, op, k, plen, false) }
+
+/// the same with a subscriber attached right before the failing call (C13: a failed call emits nothing)
+fn replay_with_fault_sub(name: &str, prefix: &[String], op: &str, k: usize, plen: u64, subscribe: bool) -> (String, String, String) {
     let mut sim = Sim::new();
     sim.check_oracle = false;
     for l in prefix { sim.exec(l); }
+    if subscribe { sim.exec(&format!("sub {name}")); sim.exec(&format!("sub {name}")); }
     sim.exec(&format!("faultnext {name} {k}"));
     let res = sim.exec(op);
     let st = sim.exec(&format!("faultstate {name}"));
@@ -1048,11 +1062,14 @@ fn replay_with_fault_on(name: &str, prefix: &[String], op: &str, k: usize, plen:
     (res, st, probe)
 }
 
+/// events the subscribers saw during a call, from its output line (` ev=a,b;a,b`)
+fn emitted(res: &str) -> String { res.split(" ev=").nth(1).map(|e| e.split(' ').next().unwrap_or("").replace(';', "")).unwrap_or_default() }
+
 /// Storage faults during proof applications on a replica (C10 over "histories as in C02"): the writer holds a
 /// log, the replica applies honest proofs (upgrade, block, block + upgrade, in random request order, with
 /// growth rounds in between); each application is replayed once per storage operation of the replica with
 /// that operation failing.
-pub fn fault_replica_histories(seed: u64, n: usize) -> RunOut {
+pub fn fault_replica_histories(seed: u64, n: usize, events: bool) -> RunOut {
     let mut r = Rng::new(seed);
     let mut c = Ctx { sim: Sim::new(), out: RunOut { ops: vec![], outs: vec![], stats: BTreeMap::new(), failures: vec![], samples: vec![] }, seen: HashSet::new(), hist_digest: String::new() };
     for _ in 0..n {
@@ -1088,10 +1105,19 @@ pub fn fault_replica_histories(seed: u64, n: usize) -> RunOut {
             for j in 0..=jlen { crash_out.push(c.run(format!("crash R {j} 0")).split(" oj=").next().unwrap().to_string()); }
             let plen = c.sim.h["R"].oracle.len.max(c.sim.h["R"].prev_oracle.len);
             for k in 0..kinds.len() {
-                let (res, fst, probe) = replay_with_fault_on("R", &lines, &line, k, plen);
+                let (res, fst, probe) = replay_with_fault_sub("R", &lines, &line, k, plen, events);
                 *c.out.stats.entry(format!("rfault_at_{}", kinds[k])).or_insert(0) += 1;
                 *c.out.stats.entry("fault_points".into()).or_insert(0) += 1;
                 if !fst.starts_with("failed=true") { continue; }
+                if events {
+                    // C13: a call that failed with a storage error announces nothing
+                    *c.out.stats.entry("failed_calls_with_subscribers".into()).or_insert(0) += 1;
+                    if !res.starts_with("ok") && !emitted(&res).is_empty() {
+                        let line_no = c.sim.line;
+                        c.out.failures.push(Failure { key: "events-on-failed-call".into(), detail: format!("the call failed [{}] but its subscribers received events: `{}` with an I/O error at the replica's storage operation {k} ({}) || history: {}", crate::sim::trunc(&res), crate::sim::trunc(&line), kinds[k], crate::sim::trunc(&lines.join(" ; "))), line: line_no });
+                    }
+                    continue;
+                }
                 let j = kinds[..k].iter().filter(|c| **c == 'w' || **c == 'd' || **c == 't').count();
                 let ctx = format!("`{}` with an I/O error at the replica's storage operation {k} ({}) || history: {}", crate::sim::trunc(&line), kinds[k], crate::sim::trunc(&lines.join(" ; ")));
                 let line_no = c.sim.line;
@@ -1107,7 +1133,7 @@ pub fn fault_replica_histories(seed: u64, n: usize) -> RunOut {
     c.out
 }
 
-pub fn fault_histories(seed: u64, n: usize, max_ops: u64) -> RunOut {
+pub fn fault_histories(seed: u64, n: usize, max_ops: u64, events: bool) -> RunOut {
     let mut r = Rng::new(seed);
     let mut c = Ctx { sim: Sim::new(), out: RunOut { ops: vec![], outs: vec![], stats: BTreeMap::new(), failures: vec![], samples: vec![] }, seen: HashSet::new(), hist_digest: String::new() };
     for _ in 0..n {
@@ -1131,11 +1157,19 @@ pub fn fault_histories(seed: u64, n: usize, max_ops: u64) -> RunOut {
             let before_probe = if !mutating { let o = c.sim.exec(&format!("probeat W {plen}")); c.sim.history.pop(); Some(o) } else { None };
             // every fault point
             for k in 0..kinds.len() {
-                let (res, fst, probe) = replay_with_fault(&lines, &line, k, plen);
+                let (res, fst, probe) = replay_with_fault_sub("W", &lines, &line, k, plen, events);
                 *c.out.stats.entry(format!("fault_at_{}", kinds[k])).or_insert(0) += 1;
                 *c.out.stats.entry("fault_points".into()).or_insert(0) += 1;
                 let fired = fst.starts_with("failed=true");
                 if !fired { continue; }
+                if events {
+                    *c.out.stats.entry("failed_calls_with_subscribers".into()).or_insert(0) += 1;
+                    if !res.starts_with("ok") && !emitted(&res).is_empty() && !line.starts_with("get") {
+                        let line_no = c.sim.line;
+                        c.out.failures.push(Failure { key: "events-on-failed-call".into(), detail: format!("the call failed [{}] but its subscribers received events: `{line}` with an I/O error at its storage operation {k} ({}) || history: {}", crate::sim::trunc(&res), kinds[k], lines.join(" ; ")), line: line_no });
+                    }
+                    continue;
+                }
                 let j = kinds[..k].iter().filter(|c| **c == 'w' || **c == 'd' || **c == 't').count();
                 let ctx = format!("`{line}` with an I/O error at its storage operation {k} ({}) || history: {}", kinds[k], lines.join(" ; "));
                 let line_no = c.sim.line;
